@@ -25,11 +25,13 @@ for rel, kind in sorted(expect.items()):
     d = {'proto': 'proto', 'ch': '.', 'chpool': 'chpool', 'compress': 'compress'}[pkg]
     tests = '|'.join(re.findall(r'func (Test\w+)', src))
     tags = '-tags purego ' if re.search(r'^//go:build purego', src, re.M) else ''
+    if re.search(r'^// verif:race', src, re.M):
+        tags += '-race '  # the recipe demonstrates a data race: run it under the race detector
     with tempfile.TemporaryDirectory() as td:
         ov = os.path.join(td, 'ov.json')
         json.dump({'Replace': {os.path.join('/repo', d, 'zz_verif_recipe_test.go'): path}}, open(ov, 'w'))
         t0 = time.time()
-        p = subprocess.run('ulimit -v 8388608; go test %s-overlay %s -vet=off -count=1 -timeout 120s -run "^(%s)$" .' % (tags, ov, tests),
+        p = subprocess.run('%sgo test %s-overlay %s -vet=off -count=1 -timeout 120s -run "^(%s)$" .' % ('' if '-race' in tags else 'ulimit -v 8388608; ', tags, ov, tests),
                            shell=True, cwd=os.path.join('/repo', d), env=env, capture_output=True, text=True, executable='/bin/bash')
     passed = p.returncode == 0
     results.append({'recipe': rel, 'listed_as': kind, 'passed_on_current_tree': passed, 'seconds': round(time.time() - t0, 1)})
